@@ -1,0 +1,40 @@
+//go:build verif
+
+package proxy
+
+import (
+	"sync/atomic"
+	"time"
+
+	"github.com/datastax/cql-proxy/proxycore"
+)
+
+func verifAt(point string, args ...interface{}) {
+	proxycore.VerifAt(point, args...)
+}
+
+var verifRefreshWindowNanos int64
+
+// VerifSetRefreshWindow overrides the cluster's topology refresh window for proxies connected afterwards (0 = default).
+func VerifSetRefreshWindow(d time.Duration) {
+	atomic.StoreInt64(&verifRefreshWindowNanos, int64(d))
+}
+
+func verifRefreshWindow() time.Duration {
+	return time.Duration(atomic.LoadInt64(&verifRefreshWindowNanos))
+}
+
+// VerifSessions returns the sessions currently cached by the proxy.
+func (p *Proxy) VerifSessions() (sessions []*proxycore.Session) {
+	p.sessionsMu.RLock()
+	defer p.sessionsMu.RUnlock()
+	for _, s := range p.sessions {
+		sessions = append(sessions, s)
+	}
+	return sessions
+}
+
+// VerifLoadBalancer returns the proxy's load balancer.
+func (p *Proxy) VerifLoadBalancer() proxycore.LoadBalancer {
+	return p.lb
+}
